@@ -177,10 +177,14 @@ func callGraphJSON(ast *syntax.Ast) string {
 	if json.Unmarshal(b, &v) == nil {
 		b, _ = json.Marshal(sortRefLists(v))
 	}
+	// numerically, -0 is 0
+	b = []byte(negZeroRe.ReplaceAllString(string(b), "${1}0${3}"))
 	// source locations embedded in messages are not part of the meaning
 	t := locRe.ReplaceAllString(string(b), "")
 	return strings.ReplaceAll(strings.ReplaceAll(t, "\\n", ""), " ", "")
 }
+
+var negZeroRe = regexp.MustCompile(`([\[,:])-0(\.0+)?([\],}])`)
 
 var locRe = regexp.MustCompile(`((at|\[\d+\]|included from) )?[^ "\\]*\.mro:\d+( included from:?)?`)
 
